@@ -109,7 +109,7 @@ def run_case(c):
     kw = {}
     if c["proxy"]:
         kw.update(http_proxy_host="127.0.0.1", http_proxy_port=rig.proxy.port)
-    url = f"{c['scheme']}://{c['host']}:{target.port}/tls"
+    url = f"{c.get('spelling') or c['scheme']}://{c['host']}:{target.port}/tls"
     raised, ws = None, None
     try:
         try:
@@ -132,6 +132,15 @@ def run_case(c):
     # the endpoint threads have finished handling them (a connection may still sit in the listen backlog)
     import time as _t
 
+    if c.get("spelling") and isinstance(raised, ValueError):
+        # an upper-case spelling of the scheme may be refused outright - but then nothing may have been sent anywhere
+        _t.sleep(0.05)
+        contacted = [e.kind for e in rig.all() if e.counts()[0] != before[id(e)] or e.counts()[1] != before[id(e)]]
+        if contacted:
+            obs.fail("scheme-case|refused-after-network-activity", f"{url}: endpoints contacted {contacted}")
+        obs.cls = ("scheme-case", "refused")
+        obs.nt = repr(sorted(c.items()))
+        return obs
     need = [target] + ([rig.proxy] if c["proxy"] else [])
     end = _t.time() + 8.0
     while _t.time() < end and not all(e.counts()[1] >= before[id(e)] + 1 for e in need):
@@ -212,6 +221,12 @@ def configs():
                            "server_hostname": sh, "env": None}
 
 
+    # a wss scheme spelled with upper-case letters is either refused (ValueError, nothing sent) or treated as wss - never as plain ws
+    for cert in ("good", "rogue"):
+        for sp in ("WSS", "Wss", "wsS"):
+            for proxy in (False, True):
+                yield {"scheme": "wss", "spelling": sp, "host": "localhost", "cert": cert, "proxy": proxy, "trust": "ca_certs=testca", "cert_reqs": None,
+                       "check_hostname": None, "server_hostname": None, "env": None}
     # the documented ssl_version option must not change what is verified
     import warnings
 
